@@ -110,3 +110,24 @@ Fixpoint collect (want : cresult -> bool) (t : cres) : list (list (ctype * Z)) :
   end.
 Definition is_added (r : cresult) : bool := match r with RAdded => true | _ => false end.
 Definition is_deleted (r : cresult) : bool := match r with RDeleted | RRemoved => true | _ => false end.
+
+(* ------------------------------------------------------------------ single edits of dict-valued properties *)
+(* deletion, change and addition of an entry (d1 -> d2) are reported below `path`;
+   tdel/tchg/tadd: leaf types, rdel: "deleted" or "removed", ref/refchg: the leaf's reference *)
+Definition dict_edits_reported {A} (t : cres) (path : list (ctype * Z)) (d1 d2 : list (Z * A))
+  (tdel tchg tadd : Z -> A -> ctype) (rdel : cresult) (ref refchg : A -> Z) : Prop :=
+  (forall k v, In (k, v) d1 -> ~ In k (keys d2) -> reports t path rdel (tdel k v) (ref v)) /\
+  (forall k v v2, In (k, v) d1 -> In (k, v2) d2 -> v <> v2 -> reports t path RChanged (tchg k v) (refchg v)) /\
+  (forall k v, In (k, v) d2 -> ~ In k (keys d1) -> reports t path RAdded (tadd k v) (ref v)).
+
+Definition attrs_reported (t : cres) (path : list (ctype * Z)) (a1 a2 : dict) : Prop :=
+  dict_edits_reported t path a1 a2 (fun k _ => TAttr k) (fun k _ => TAttr k) (fun k _ => TAttr k) RDeleted (fun v => v) (fun v => v).
+Definition values_reported (t : cres) (path : list (ctype * Z)) (v1 v2 : dict) : Prop :=
+  dict_edits_reported t path v1 v2 (fun k _ => TValue k) (fun k v => TValueChanged k v) (fun k _ => TValue k) RRemoved (fun v => v) (fun _ => -1).
+
+(* one define list (type ty): define deleted / definition changed / default changed / define added *)
+Definition defines_reported (t : cres) (ty : ctype) (d1 d2 : defines) : Prop :=
+  (forall k v, In (k, v) d1 -> ~ In k (keys d2) -> reports t [(ty, -1)] RDeleted (TDefine k) (-1)) /\
+  (forall k v v2, In (k, v) d1 -> In (k, v2) d2 -> fst v <> fst v2 -> reports t [(ty, -1)] RChanged TDefinition (fst v)) /\
+  (forall k v v2, In (k, v) d1 -> In (k, v2) d2 -> snd v <> snd v2 -> reports t [(ty, -1)] RChanged TDefaultValue (fst v)) /\
+  (forall k v, In (k, v) d2 -> ~ In k (keys d1) -> reports t [(ty, -1)] RAdded (TDefine k) (-1)).
